@@ -6,7 +6,7 @@
   Contents
    §1  kernel-reducible string helpers and table queries (no `String.splitOn`: it does not reduce
        in the kernel; everything here is structural recursion over `String.toList`)
-   §2  name-based call graph: `callsInto`, inductive `Reachable`, computable fuel-bounded `reachKeys`,
+   §2  type-resolved call graph: `callsInto`, inductive `Reachable`, computable fuel-bounded `reachKeys`,
        and the invariant lemma  roots ⊆ S ∧ S closed under calls  ⇒  Reachable ⊆ S
    §3  abstract footprint semantics and schedule independence (2 threads, n threads)
    §4  the tri-state Gröbner flag of the model `BPoly.Ideal` (guard argument)
@@ -128,21 +128,26 @@ def isSharedWriter (f : Fn) : Bool := f.typed.any (typedIn sharedTypes)
 def writersOf (fields : List String) (t : List Fn) : List (String × String) :=
   t.flatMap fun f => (f.typed.filter fun s => memC s fields).map fun s => (f.key, s)
 
-/-! ## §2 name-based call graph -/
+/-! ## §2 call graph (callees resolved by TYPE in the extractor) -/
 
-/-- Does callee name `c`, occurring in the body of `caller`, possibly denote `g`?
-    Same resolution as the extractor's fix-point (by NAME, no types), made coarser where the table
-    has lost information (it does not say whether a bare name was a method call): a bare name `c`
-    denotes every METHOD named `c` (any receiver type, any of the eight packages) and the plain
-    FUNCTION `c` of the caller's package (key "pkg.c"); a qualified name "pkg.F" denotes the plain
-    function with exactly that key. -/
-def resolves (caller : Fn) (c : String) (g : Fn) : Bool :=
-  if hasDotC (code c) then noRecv g && code g.key == code c
-  else nameC g == code c && (!noRecv g || pkgC g == pkgC caller)
+/-- Does entry `c` of `caller.calls` denote `g`? The extractor resolves every call by type (go/types): a
+    static call / a method call on a concrete type to its one callee, a call through an interface to the
+    methods of that name of all types of the repository implementing the interface, a call of a function
+    value to every function (literals: their enclosing function) with identical signature; `calls` lists
+    the KEYS of the possible callees (entries "ext:…" / "dyn:…" name functions outside the repository /
+    function-value signatures and match no key). -/
+def resolves (_caller : Fn) (c : String) (g : Fn) : Bool := code g.key == code c
+
+/-- the entries of `calls` that name functions outside the repository ("ext:pkg.Func") or calls of function
+    values ("dyn:signature"): exactly those that are not a function key of the table -/
+def outsideCalls (t : List Fn) : List String :=
+  let ks := t.map fun f => code f.key
+  (t.flatMap fun f => f.calls.filter fun c => !ks.contains (code c)).foldl
+    (fun acc c => if (acc.map code).contains (code c) then acc else acc ++ [c]) []
 
 def callsInto (f g : Fn) : Bool := f.calls.any fun c => resolves f c g
 
-/-- reachability in the name-based call graph of table `t` from the functions satisfying `root` -/
+/-- reachability in the (type-resolved) call graph of table `t` from the functions satisfying `root` -/
 inductive Reachable (t : List Fn) (root : Fn → Bool) : Fn → Prop
   | root {f} : f ∈ t → root f = true → Reachable t root f
   | call {f g} : Reachable t root f → g ∈ t → callsInto f g = true → Reachable t root g
@@ -167,7 +172,7 @@ def rootKeys (t : List Fn) (root : Fn → Bool) : List String := (t.filter root)
     round adds a key. The theorems use the inductive `Reachable` (no fuel). -/
 def reachKeys (t : List Fn) (root : Fn → Bool) : List String := closeKeys t t.length (rootKeys t root)
 
-/-- the check "no function outside `excl` calls (by name) a function inside `excl`", arranged so that
+/-- the check "no function outside `excl` may call a function inside `excl`", arranged so that
     the outer loop runs over the (short) excluded list -/
 def closedCheck (t : List Fn) (excl : List String) : Bool :=
   (t.filter fun g => memC g.key excl).all fun g =>
